@@ -3,6 +3,7 @@ import os, re
 
 # oracle key (prefix match) -> properties it is evidence against
 KEYMAP = {
+    'reset-genuine-token-': ['C04'],   # scenario resettok (must precede the C01 stream prefix 'reset-')
     'stream-data-': ['C01'], 'fin-': ['C01'], 'unordered-gap-at-fin': ['C01'], 'reset-': ['C01'],
     'more-read-than-written': ['C01'], 'stream-from-nowhere': ['C01', 'C09'], 'empty-chunk': ['C01'],
     'chunk-exceeds-max-length': ['C01'], 'write-returned-bad-count': ['C05', 'C01'],
@@ -13,13 +14,14 @@ KEYMAP = {
     'connection-lost-reported-twice': ['C08'], 'drained-notified-twice': ['C08'], 'output-after-drained': ['C08', 'C20'],
     'close-': ['C08'], 'idle-': ['C08'], 'drain-': ['C08'], 'lost-': ['C08'],
     'data-delivered-after-close': ['C08'],
+    'crypto-buffer-': ['C06', 'C03'],
     'finished-event-twice': ['C11'], 'finished-without-finish': ['C11'],
     'in-flight-': ['C12'], 'cwnd-': ['C12'],
     'datagram-exceeds-mtu': ['C13'], 'too-many-segments': ['C13'], 'mtu-': ['C13'], 'initial-too-small': ['C13'],
     'datagram-not-sent-or-duplicated': ['C16'], 'dgram-': ['C16'],
     'path-challenge-unpadded': ['C13'], 'path-response-unpadded': ['C13'], 'loss-probe-oversized': ['C13'],
     'migration-': ['C15'], 'path-': ['C15'],
-    'determinism-': ['C20'], 'shift-': ['C20'], 'spurious-': ['C20'], 'timeout-settle': ['C20'],
+    'determinism-': ['C20'], 'shift-': ['C20'], 'spurious-': ['C20'], 'timeout-settle': ['C20'], 'steps-without-time-advance': ['C20', 'C03'],
     'zero-rtt-rejected-credit-update-lost': ['C17', 'C02'], 'zero-rtt-rejected-datagram-exceeds-new-limit': ['C17', 'C02'],
     'zero-rtt-rejected-limits-not-fresh': ['C17', 'C05'], 'zero-rtt-accepted-limits-not-raised': ['C17', 'C05'],
     'zero-rtt-': ['C17'],
@@ -55,7 +57,21 @@ def run(pid, scen, seed, tier, stats, failing, broken, sh, CACHE, TARGET, infra,
     rundir = os.path.join(CACHE, 'run')
     os.makedirs(rundir, exist_ok=True)
     prefix = os.path.join(rundir, f'{pid}-{tier}-sim-{name}')
-    rc, out = sh([os.path.join(TARGET, 'debug', 'sim'), name, str(seed), str(n), prefix], timeout=7200)
+    import subprocess
+    cmdline = [os.path.join(TARGET, 'debug', 'sim'), name, str(seed), str(n), prefix]
+    try:
+        rc, out = sh(cmdline, timeout=7200)
+    except subprocess.TimeoutExpired:
+        rc, out = -1000, 'timeout after 7200 s'
+    if rc < 0:
+        # killed by a signal (allocation failure / abort / OOM killer) or not finished in two hours: the code under test
+        # made whole executions run away. That is a verdict about the code (unbounded loop or memory), not about the
+        # infrastructure: report it for this property with the command that reproduces it.
+        failing.append(dict(kind='sim-abnormal-termination', component=f'sim:{name}', key='simulator-did-not-finish',
+                            what=f'key=simulator-did-not-finish the simulator was killed / did not finish (rc={rc}) while running scenario {name}: {out[-600:]}',
+                            replay_cmd=' '.join(cmdline)))
+        stats[f'sim:{name}'] = dict(cases='0', evaluations='0', oracle_fail=[], rule='', abnormal=f'rc={rc}')
+        return None
     if rc != 0:
         infra(f'sim {name} failed rc={rc}:\n{out[-2000:]}')
     st = parse(prefix + '.stats')
